@@ -155,6 +155,14 @@ def regenerate_guards(pid):
         nold = nt.read_text() if nt.exists() else ""
         if ntext != nold: nt.write_text(ntext)
         info["numpy_code"] = {"module": "LK.Gen.NpC06", "obligations": "LK/Proofs/NpC06.lean", "function": "metrics/ranking/_dcg.py:array_dcg, fixed_dcg", "changed_since_last_run": ntext != nold}
+        # measure_list of the list-wise ranking metrics (translate/py2lean_rank.py)
+        import py2lean_rank
+        rt = LEAN_DIR / "LK" / "Generated" / "RankC06.lean"
+        try: rtext = py2lean_rank.generate(os.path.dirname(lenskit.__file__))
+        except py2lean_rank.Unsupported as e: return "untranslatable", f"ranking metrics: {e}", info
+        rold = rt.read_text() if rt.exists() else ""
+        if rtext != rold: rt.write_text(rtext)
+        info["ranking_metrics"] = {"module": "LK.Gen.RankC06", "obligations": "LK/Proofs/RankC06.lean", "function": "metrics/ranking: Hit, Precision, Recall, RecipRank, RBP .measure_list", "changed_since_last_run": rtext != rold}
     if pid == "C03":
         # the wiring of the standard pipelines, as lenskit's own builders construct it now (translate/wiring_gen.py)
         import wiring_gen
@@ -234,7 +242,7 @@ def main():
         if status in ("untranslatable", "obligation-broken"):
             sys.exit(search_chunking(a.pid, f"{status}: {msg}"))
         if status == "build-error":
-            if ginfo is not None and any(f"{k}{a.pid}" in msg for k in ("Guards", "Wiring", "Scatter", "Np", "Imp", "Holdout", "Arrow", "Cand", "SaveTrace", "BatchTrace", "Neg", "Als", "Agg")):
+            if ginfo is not None and any(f"{k}{a.pid}" in msg for k in ("Guards", "Wiring", "Scatter", "Np", "Imp", "Holdout", "Arrow", "Cand", "SaveTrace", "BatchTrace", "Neg", "Als", "Agg", "Rank")):
                 sys.exit(obligation_broken(a.pid, "obligation-broken: " + msg.replace("\n", " | ")[:900], mod, a.tier, seed, a.replay, ginfo))
             print(f"machinery error: lake build failed\n{msg}", file=sys.stderr); sys.exit(2)
     else:
@@ -242,7 +250,7 @@ def main():
         r = subprocess.run(["lake", "build", f"LK.Props.{a.pid}", "lkdriver"], cwd=LEAN_DIR, capture_output=True, text=True, timeout=1800)
         if r.returncode != 0:
             bad = [l for l in (r.stdout + r.stderr).splitlines() if "error" in l][:8]
-            if ginfo is not None and any(any(f"{k}{a.pid}" in l for k in ("Guards", "Wiring", "Scatter", "Np", "Imp", "Holdout", "Arrow", "Cand", "SaveTrace", "BatchTrace", "Neg", "Als", "Agg")) for l in bad):
+            if ginfo is not None and any(any(f"{k}{a.pid}" in l for k in ("Guards", "Wiring", "Scatter", "Np", "Imp", "Holdout", "Arrow", "Cand", "SaveTrace", "BatchTrace", "Neg", "Als", "Agg", "Rank")) for l in bad):
                 sys.exit(obligation_broken(a.pid, "obligation-broken: " + " | ".join(bad)[:900], mod, a.tier, seed, a.replay, ginfo))
             print("machinery error: lake build failed\n" + "\n".join(bad[:6]), file=sys.stderr); sys.exit(2)
     try:
